@@ -41,6 +41,11 @@ pub fn shared_modules() -> std::collections::BTreeMap<String, String> {
         "/shared/ok.ts".to_string(),
         "console.log(\"run ok\"); export const dv: number = 5; export function dfn(): number { return dv + 1; }".to_string(),
     );
+    // what a path-less program asking for "./rel_dep.ts" gets on a fresh interpreter, and the
+    // places a leaked base directory would make it resolve to instead
+    m.insert("rel_dep.ts".to_string(), "console.log(\"run rel\"); export const rv: number = 42;".to_string());
+    m.insert("/victims/rel_dep.ts".to_string(), "console.log(\"run WRONG rel\"); export const rv: number = -1;".to_string());
+    m.insert("/rel_dep.ts".to_string(), "console.log(\"run WRONG root rel\"); export const rv: number = -2;".to_string());
     m.insert(
         "/shared/ok2.ts".to_string(),
         "import { dv } from \"./ok.ts\"; console.log(\"run ok2\"); export const dv2: number = dv * 2;".to_string(),
@@ -62,6 +67,11 @@ pub fn shared_modules() -> std::collections::BTreeMap<String, String> {
 const IMPORT_OBSERVER_OK: &str = r#"import { dv, dfn } from "/shared/ok.ts";
 import { dv2 } from "/shared/ok2.ts";
 [typeof vn0, typeof __log, typeof vmain, typeof inner, dv, dfn(), dv2].join(",")
+"#;
+
+const IMPORT_OBSERVER_REL: &str = r#"import { rv } from "./rel_dep.ts";
+export const seen: number = rv;
+[typeof vn0, typeof inner, rv].join(",")
 "#;
 
 const IMPORT_OBSERVER_BAD: &str = r#"import { a, b } from "/shared/bad.ts";
@@ -213,6 +223,7 @@ struct ObsResult {
     observer: Outcome,
     import_ok: Outcome,
     import_bad: Outcome,
+    import_rel: Outcome,
     depth_before: usize,
     depth_after: usize,
     quiescence: String,
@@ -241,7 +252,17 @@ fn observers(h: &mut Host, scn: &Scn) -> ObsResult {
     };
     let mut import_ok = None;
     let mut import_bad = None;
+    // a path-less script with a relative import: resolution must not depend on earlier runs
+    let rel = |h: &mut Host| -> Outcome {
+        let mut s = battery_spec(scn.fuel);
+        s.source = IMPORT_OBSERVER_REL.to_string();
+        s.modules = shared_modules();
+        s.path = None;
+        run_to_end(h, s)
+    };
+    let mut import_rel = None;
     if scn.import_observers_first {
+        import_rel = Some(rel(h));
         import_ok = Some(importing(h, IMPORT_OBSERVER_OK, "/obs/imp_ok.ts"));
         import_bad = Some(importing(h, IMPORT_OBSERVER_BAD, "/obs/imp_bad.ts"));
     }
@@ -250,6 +271,7 @@ fn observers(h: &mut Host, scn: &Scn) -> ObsResult {
     ospec.path = Some("/obs/observer.ts".into());
     let observer = run_to_end(h, ospec);
     if !scn.import_observers_first {
+        import_rel = Some(rel(h));
         import_bad = Some(importing(h, IMPORT_OBSERVER_BAD, "/obs/imp_bad.ts"));
         import_ok = Some(importing(h, IMPORT_OBSERVER_OK, "/obs/imp_ok.ts"));
     }
@@ -261,6 +283,7 @@ fn observers(h: &mut Host, scn: &Scn) -> ObsResult {
         observer,
         import_ok: import_ok.unwrap_or_default(),
         import_bad: import_bad.unwrap_or_default(),
+        import_rel: import_rel.unwrap_or_default(),
         depth_before,
         depth_after,
         quiescence: format!("{:?}", q),
@@ -385,6 +408,20 @@ impl Check for C11 {
                     _ => End::RunOut,
                 }
             };
+            // tails that leave something in the order ledger without parking the run in order():
+            // an order issued inside a native callback, an explicit cancel as the last action
+            if holes > 0 {
+                match rng.below(10) {
+                    0 | 1 => append_to_main(&mut case.tree, prefix, "try { [1, 2].forEach((x: any) => { __h(50 + x); }); } catch (e: any) { __log.push(\"ocb:\" + String(e && e.message !== undefined ? e.message : e)); }"),
+                    2 => {
+                        if let Some(first) = case.tree.kids.first_mut() {
+                            first.pre = format!("import {{ __cancelOrder__ as __cx }} from \"tsrun:host\";\n{}", first.pre);
+                        }
+                        append_to_main(&mut case.tree, prefix, "__cx(1);");
+                    }
+                    _ => {}
+                }
+            }
             let import = match rng.below(20) {
                 0..=2 => Some("/victims/ok.ts".to_string()),
                 3..=6 => Some("/shared/bad.ts".to_string()),
@@ -596,6 +633,24 @@ impl Check for C11 {
                     format!("{} {:?} {:?}", fresh.import_bad.result, fresh.import_bad.console, fresh.import_bad.traffic),
                     format!("{} {:?} {:?}", reused.import_bad.result, reused.import_bad.console, reused.import_bad.traffic),
                 ));
+            } else if fresh.import_rel.result != reused.import_rel.result
+                || fresh.import_rel.console != reused.import_rel.console
+                || fresh.import_rel.traffic != reused.import_rel.traffic
+                || fresh.import_rel.exports != reused.import_rel.exports
+            {
+                rep.fail(mk(
+                    "pathless_observer_with_relative_import_differs_from_fresh",
+                    "path-less observer importing ./rel_dep.ts",
+                    format!("{} {:?} {:?} {:?}", fresh.import_rel.result, fresh.import_rel.console, fresh.import_rel.traffic, fresh.import_rel.exports),
+                    format!("{} {:?} {:?} {:?}", reused.import_rel.result, reused.import_rel.console, reused.import_rel.traffic, reused.import_rel.exports),
+                ));
+            } else if fresh.battery.exports != reused.battery.exports || fresh.import_ok.exports != reused.import_ok.exports {
+                rep.fail(mk(
+                    "exports_reported_after_observer_differ_from_fresh",
+                    "get_export_names/get_export after a path-less or importing observer",
+                    format!("{:?} {:?}", fresh.battery.exports, fresh.import_ok.exports),
+                    format!("{:?} {:?}", reused.battery.exports, reused.import_ok.exports),
+                ));
             } else if fresh.observer.exports != reused.observer.exports {
                 rep.fail(mk("observer_exports_differ_from_fresh", "exports", format!("{:?}", fresh.observer.exports), format!("{:?}", reused.observer.exports)));
             } else if reused.depth_after != fresh.depth_after {
@@ -645,6 +700,18 @@ pub fn strip_top_catch(tree: &mut Node, prefix: &str) {
     for k in tree.kids.iter_mut() {
         if k.pre.starts_with(&needle) {
             k.pre = format!("let {p}r: any; {p}r = await {p}main();", p = prefix);
+        }
+    }
+}
+
+
+/// Insert a statement just before the final `return` of the generated main function.
+fn append_to_main(tree: &mut Node, prefix: &str, stmt: &str) {
+    let needle = format!("async function {}main", prefix);
+    for k in tree.kids.iter_mut() {
+        if k.pre.starts_with(&needle) {
+            let at = k.kids.len().saturating_sub(1);
+            k.kids.insert(at, Node::leaf(stmt));
         }
     }
 }
